@@ -7,7 +7,7 @@ from decimal import Decimal
 
 import pandas as pd
 
-from ..sim import Sim, Oracle, ScriptedStrategy
+from ..sim import Sim, Oracle, ScriptedStrategy, op
 from ..canon import canon, D
 from ..worlds import uni as U
 from .. import rng as R
@@ -61,6 +61,43 @@ class TracedStrategy(ScriptedStrategy):
             self.triggers.append(CustomizedTrigger(when, do))
         add_expiring(n_extra)
         super().initialize()
+
+
+@op("strat.rebind_hook")
+def _rebind_hook(sim, market, a):
+    """The strategy switches behaviour by assigning a new callable to one of its own hooks (the state-machine idiom
+    `self.on_bar = self._on_bar_invested`): from the next call on the loop must reach the new one."""
+    hook = a["hook"]
+
+    def call():
+        st = sim.strategy
+        gens = getattr(sim, "_hook_gen", None)
+        if gens is None:
+            gens = sim._hook_gen = {}
+        gens[hook] = g = gens.get(hook, 0) + 1
+        base = getattr(type(st), hook)
+
+        def hooked(arg, _g=g, _h=hook):
+            sim.event("hook_gen", _h, _g)
+            return base(st, arg)
+
+        setattr(st, hook, hooked)
+        sim.event("rebind", hook, g)
+        return g
+
+    return call
+
+
+def _add_rebinds(rx, program, nb, faults):
+    """in 8% of the runs the strategy re-assigns one or two of its hooks while the loop is running"""
+    if nb < 2 or rx.random() >= 0.08:
+        return
+    for _ in range(rx.choice([1, 1, 2])):
+        bar = rx.randint(0, nb - 1)
+        program.append({"bar": bar, "phase": rx.choice(["before_bar", "on_bar", "after_bar", "trigger"]), "op": "strat.rebind_hook", "m": None,
+                        "a": {"hook": rx.choice(["before_bar", "on_bar", "on_bar", "after_bar", "notify"])}})
+    program.sort(key=lambda o: (o["bar"], ORDER.index(o["phase"])))
+    faults.append({"kind": "strategy_hook_reassigned_mid_run"})
 
 
 # --------------------------------------------------------------------------------------------------- generation
@@ -124,6 +161,9 @@ def generate(seed: int, tier: str = "quick") -> dict:
     opts = {"extra_triggers": rp.choice([0, 0, 1, 2, 3]), "trigger_phase": rp.random() < 0.5}
     faults = []
     _add_expiring(R.sub(seed, "expiring"), opts, labels, faults)
+    _add_rebinds(R.sub(seed, "rebind"), program, nb, faults)
+    if any(o["phase"] == "trigger" for o in program):
+        opts["trigger_phase"] = True
     if interval == "1min" and R.sub(seed, "second_actuator").random() < 0.12:
         opts["second_actuator"] = True
         faults.append({"kind": "market_objects_reused_by_a_second_actuator"})
@@ -154,6 +194,9 @@ def gen_donor(seed, tier, donor):
     opts = {"extra_triggers": rp.choice([0, 0, 1, 2, 3]), "trigger_phase": rp.random() < 0.5}
     faults = [{"kind": "donor:" + donor}]
     _add_expiring(R.sub(seed, "expiring"), opts, DN.bar_times(base["world"]), faults)
+    _add_rebinds(R.sub(seed, "rebind"), prog, nb, faults)
+    if any(o["phase"] == "trigger" for o in prog):
+        opts["trigger_phase"] = True
     # an option market with many listed instruments: its (time, instrument) frame then has more ROWS than the minutely
     # co-market has minutes, although it has far fewer distinct timestamps (real order-book files list hundreds)
     w = base["world"]
@@ -230,6 +273,19 @@ class LoopOracle(Oracle):
             sim.violate("c05.crash", type(sim.crash).__name__ + "@" + "/".join(sim.crash_where[-1:]), msg=str(sim.crash)[:200])
             return
         ev = sim.events
+        # ---- a hook the strategy re-assigned on itself: every later call of that hook reaches the callable assigned last
+        cur_gen = {}
+        for j, e in enumerate(ev):
+            if e[1] == "rebind":
+                cur_gen[e[2]] = e[3]
+                sim.count("fault:strategy_hook_reassigned_mid_run")
+            hook = e[2] if e[1] == "phase" and e[2] in ("before_bar", "on_bar", "after_bar") else ("notify" if e[1] == "notify" else None)
+            if hook and cur_gen.get(hook):
+                prev = ev[j - 1] if j else None
+                if not (prev and prev[1] == "hook_gen" and prev[2] == hook and prev[3] == cur_gen[hook]):
+                    sim.violate("c05.phase_order", f"stale_hook:{hook}", event=e[:4], assigned_generation=cur_gen[hook],
+                                reached=(prev[3] if prev and prev[1] == "hook_gen" and prev[2] == hook else 0))
+                    break
         # ---- split the trace into prologue and bars at each before_bar event
         bars, cur, prologue = [], None, []
         for e in ev:
